@@ -132,7 +132,10 @@ def _rdm_chunk(args):
                 m = m.add(st.random_mps(model, qntot, 4, (seed, "c07r2", k, cplx), cplx=cplx).scale(0.6j if cplx else 0.6))
                 m.ensure_left_canonical()
                 nrm = m.mp_norm
-                m = m.scale(1.0 / nrm)
+                # normalised, and unnormalised with norm above and below 1 (entropies refer to the normalised reduced operators)
+                amp = [1.0, 3.0, 0.3][(k + int(cplx)) % 3]
+                detail["norm"] = amp
+                m = m.scale(amp / nrm)
                 st.to_gauge(m, gauge)
                 psi = (cz.mps_dense(m) / m.coeff).reshape(dims)
                 out["cases"].append(json.dumps(detail))
@@ -161,15 +164,15 @@ def _rdm_chunk(args):
                 e1 = m.calc_entropy("1site")
                 for i in range(N):
                     rho = np.einsum(f"{letters},{letters[:i] + 'Z' + letters[i + 1:]}->{letters[i]}Z", psi, psi.conj())
-                    if abs(e1[i] - _vn(np.linalg.eigvalsh(rho))) > 1e-8:
-                        out["viol"].append(("C07:entropy:1site", f"1-site entropy {e1[i]} differs from dense {_vn(np.linalg.eigvalsh(rho))}", detail))
+                    if abs(e1[i] - _vn(np.linalg.eigvalsh(rho) / np.trace(rho).real)) > 1e-8:
+                        out["viol"].append(("C07:entropy:1site", f"1-site entropy {e1[i]} differs from dense {_vn(np.linalg.eigvalsh(rho) / np.trace(rho).real)}", detail))
                         break
                 e2 = m.calc_entropy("2site")
                 s2 = {}
                 for i, j in itertools.combinations(range(N), 2):
                     sub_b = "".join("YZ"[(i, j).index(x)] if x in (i, j) else letters[x] for x in range(N))
                     rho = np.einsum(f"{letters},{sub_b}->{letters[i]}{letters[j]}YZ", psi, psi.conj()).reshape(dims[i] * dims[j], -1)
-                    s2[(i, j)] = _vn(np.linalg.eigvalsh(rho))
+                    s2[(i, j)] = _vn(np.linalg.eigvalsh(rho) / np.trace(rho).real)
                     if abs(e2[(i, j)] - s2[(i, j)]) > 1e-8:
                         out["viol"].append(("C07:entropy:2site", f"2-site entropy of ({i},{j}) {e2[(i, j)]} differs from dense {s2[(i, j)]}", detail))
                         break
@@ -182,8 +185,8 @@ def _rdm_chunk(args):
                 be = m.calc_entropy("bond")
                 for b in range(1, N):
                     sv = np.linalg.svd(psi.reshape(int(np.prod(dims[:b])), -1), compute_uv=False)
-                    if abs(be[b - 1] - _vn(sv ** 2)) > 1e-8:
-                        out["viol"].append(("C07:entropy:bond", f"bond entropy at bond {b} = {be[b - 1]} differs from dense {_vn(sv ** 2)}", detail))
+                    if abs(be[b - 1] - _vn(sv ** 2 / np.sum(sv ** 2))) > 1e-8:
+                        out["viol"].append(("C07:entropy:bond", f"bond entropy at bond {b} = {be[b - 1]} differs from dense {_vn(sv ** 2 / np.sum(sv ** 2))}", detail))
                         break
                 # occupations and electronic RDM
                 if model.n_edofs > 0:
